@@ -10,7 +10,7 @@ cleanup() { git -C /repo worktree remove --force "$WT" >/dev/null 2>&1; rm -rf "
 trap cleanup EXIT
 cd "$WT"
 PYDEMO=/venv/bin/python     # demos of the NumPy-dependent properties run under /verif/.venv-np (as their checks do)
-case "$D" in *C12*|*C15*|*C17*|*C37*|*C38*) [ -x /verif/.venv-np/bin/python ] && PYDEMO=/verif/.venv-np/bin/python ;; esac
+case "$D" in *C12*|*C13*|*C15*|*C17*|*C37*|*C38*) [ -x /verif/.venv-np/bin/python ] && PYDEMO=/verif/.venv-np/bin/python ;; esac
 demo_clean=$(MPYC_REPO="$WT" PYTHONPATH="$WT" PYTHONHASHSEED=0 timeout 600 $PYDEMO "$D/demo.py" >/tmp/seedverify.clean.log 2>&1; echo $?)
 if ! ( git apply "$D/patch.diff" 2>/dev/null || git apply -3 "$D/patch.diff" ); then echo "RESULT $D patch-does-not-apply"; exit 1; fi
 tests=$(timeout 900 /venv/bin/python -m pytest -q -p no:cacheprovider --timeout=900 tests >/tmp/seedverify.tests.log 2>&1; echo $?)
